@@ -908,6 +908,124 @@ theorem initAllTablesRaw_spec (w : World) (now : Int) (p : PeerSt) (b : BackendS
           rw [rows_of_tables (hta.trans ht) t0]
 
 
+/-! ### the deferred clean-up of `InitAllTables` -/
+
+/-- the deferred clean-up applies: the rebuild failed and a data set is still published -/
+def cleanupApplies (r : InitResult) : Prop := r.err ≠ .none ∧ r.p.cache.isSome = true
+
+instance (r : InitResult) : Decidable (cleanupApplies r) :=
+  inferInstanceAs (Decidable (r.err ≠ .none ∧ r.p.cache.isSome = true))
+
+/-- `InitAllTables` is the raw rebuild, except that a failed rebuild which still publishes a data set gets the
+    remembered core start and pid of the peer it started from -/
+theorem initAllTables_eq (w : World) (now : Int) (p : PeerSt) (b : BackendSt) :
+    initAllTables w now p b =
+      if cleanupApplies (initAllTablesRaw w now p b) then
+        { initAllTablesRaw w now p b with
+          p := { (initAllTablesRaw w now p b).p with programStart := p.programStart, corePid := p.corePid } }
+      else initAllTablesRaw w now p b := by
+  unfold initAllTables
+  simp only []
+  generalize initAllTablesRaw w now p b = r
+  split
+  · rename_i he
+    rw [if_neg (fun h : cleanupApplies r => h.1 he)]
+  · rename_i he
+    by_cases hc : r.p.cache.isSome = true
+    · rw [if_pos hc, if_pos (show cleanupApplies r from ⟨fun h => he h, hc⟩)]
+    · rw [if_neg hc, if_neg (fun h : cleanupApplies r => hc h.2)]
+
+theorem initAllTables_err (w : World) (now : Int) (p : PeerSt) (b : BackendSt) :
+    (initAllTables w now p b).err = (initAllTablesRaw w now p b).err := by
+  rw [initAllTables_eq]; split <;> rfl
+
+theorem initAllTables_b (w : World) (now : Int) (p : PeerSt) (b : BackendSt) :
+    (initAllTables w now p b).b = (initAllTablesRaw w now p b).b := by
+  rw [initAllTables_eq]; split <;> rfl
+
+/-- every field of the peer except the remembered core start and pid -/
+def restI (p : PeerSt) :=
+  (core p, p.lastUpdate, p.lastFullUpdate, p.lastFullHostUpdate, p.lastFullServiceUpdate, p.lastTpMinute,
+   p.forceFull, p.flags)
+
+/-- the clean-up touches nothing but the remembered core start and pid -/
+theorem initAllTables_restI (w : World) (now : Int) (p : PeerSt) (b : BackendSt) :
+    restI (initAllTables w now p b).p = restI (initAllTablesRaw w now p b).p := by
+  rw [initAllTables_eq]; split <;> rfl
+
+theorem initAllTables_core (w : World) (now : Int) (p : PeerSt) (b : BackendSt) :
+    core (initAllTables w now p b).p = core (initAllTablesRaw w now p b).p := by
+  rw [initAllTables_eq]; split <;> rfl
+
+theorem initAllTables_status (w : World) (now : Int) (p : PeerSt) (b : BackendSt) :
+    (initAllTables w now p b).p.status = (initAllTablesRaw w now p b).p.status := by
+  rw [initAllTables_eq]; split <;> rfl
+
+theorem initAllTables_cache (w : World) (now : Int) (p : PeerSt) (b : BackendSt) :
+    (initAllTables w now p b).p.cache = (initAllTablesRaw w now p b).p.cache := by
+  rw [initAllTables_eq]; split <;> rfl
+
+theorem initAllTables_lastError (w : World) (now : Int) (p : PeerSt) (b : BackendSt) :
+    (initAllTables w now p b).p.lastError = (initAllTablesRaw w now p b).p.lastError := by
+  rw [initAllTables_eq]; split <;> rfl
+
+theorem initAllTables_lastOnline (w : World) (now : Int) (p : PeerSt) (b : BackendSt) :
+    (initAllTables w now p b).p.lastOnline = (initAllTablesRaw w now p b).p.lastOnline := by
+  rw [initAllTables_eq]; split <;> rfl
+
+theorem initAllTables_errorCount (w : World) (now : Int) (p : PeerSt) (b : BackendSt) :
+    (initAllTables w now p b).p.errorCount = (initAllTablesRaw w now p b).p.errorCount := by
+  rw [initAllTables_eq]; split <;> rfl
+
+theorem initAllTables_lastUpdate (w : World) (now : Int) (p : PeerSt) (b : BackendSt) :
+    (initAllTables w now p b).p.lastUpdate = (initAllTablesRaw w now p b).p.lastUpdate := by
+  rw [initAllTables_eq]; split <;> rfl
+
+theorem initAllTables_flags (w : World) (now : Int) (p : PeerSt) (b : BackendSt) :
+    (initAllTables w now p b).p.flags = (initAllTablesRaw w now p b).p.flags := by
+  rw [initAllTables_eq]; split <;> rfl
+
+theorem initAllTables_idling (w : World) (now : Int) (p : PeerSt) (b : BackendSt) :
+    (initAllTables w now p b).p.idling = (initAllTablesRaw w now p b).p.idling ∧
+      (initAllTables w now p b).p.lastQuery = (initAllTablesRaw w now p b).p.lastQuery ∧
+      (initAllTables w now p b).p.sources = (initAllTablesRaw w now p b).p.sources := by
+  rw [initAllTables_eq]; split <;> exact ⟨rfl, rfl, rfl⟩
+
+/-- the remembered core start and pid after a rebuild: those of the peer it started from when the rebuild failed
+    with a data set still published, else what the raw rebuild left -/
+theorem initAllTables_programStart (w : World) (now : Int) (p : PeerSt) (b : BackendSt) :
+    ((initAllTables w now p b).p.programStart =
+        if cleanupApplies (initAllTablesRaw w now p b) then p.programStart
+        else (initAllTablesRaw w now p b).p.programStart) ∧
+    ((initAllTables w now p b).p.corePid =
+        if cleanupApplies (initAllTablesRaw w now p b) then p.corePid
+        else (initAllTablesRaw w now p b).p.corePid) := by
+  rw [initAllTables_eq]; split <;> exact ⟨rfl, rfl⟩
+
+/-- a failed rebuild that still publishes a data set remembers the core start and pid the peer had before -/
+theorem initAllTables_failed_remembers {w : World} {now : Int} {p : PeerSt} {b : BackendSt}
+    (he : (initAllTables w now p b).err ≠ .none) (hc : (initAllTables w now p b).p.cache.isSome = true) :
+    (initAllTables w now p b).p.programStart = p.programStart ∧ (initAllTables w now p b).p.corePid = p.corePid := by
+  rw [initAllTables_err] at he
+  rw [initAllTables_cache] at hc
+  have h : cleanupApplies (initAllTablesRaw w now p b) := ⟨he, hc⟩
+  obtain ⟨h1, h2⟩ := initAllTables_programStart w now p b
+  rw [h1, h2, if_pos h, if_pos h]
+  exact ⟨rfl, rfl⟩
+
+/-- everything the property theorems need to know about `InitAllTables` -/
+theorem initAllTables_spec (w : World) (now : Int) (p : PeerSt) (b : BackendSt) :
+    (initAllTables w now p b).b.tables = b.tables ∧
+    ((initAllTables w now p b).err = .none →
+      (initAllTables w now p b).p.cache = some (rebuildLists (freshCache w b)) ∧
+      (initAllTables w now p b).p.status = .up ∧ (initAllTables w now p b).p.lastError = "" ∧
+      (initAllTables w now p b).p.lastOnline = now ∧ (initAllTables w now p b).p.errorCount = 0) ∧
+    ((initAllTables w now p b).err ≠ .none → FailEnd p (initAllTables w now p b).p) := by
+  unfold FailEnd
+  rw [initAllTables_err, initAllTables_b, initAllTables_cache, initAllTables_status, initAllTables_lastError,
+    initAllTables_lastOnline, initAllTables_errorCount]
+  exact initAllTablesRaw_spec w now p b
+
 /-! ## the table set as a map -/
 
 theorem find_set_same (t : String) (rs : List Row) :
